@@ -116,6 +116,21 @@ func CreateAbsoluteURL(url string, base *nurl.URL) string {
 	return base.ResolveReference(tmp).String()
 }
 
+// TrimTrailingSlash removes the trailing slash of the path of the URL, from the
+// decoded and the encoded form of the path alike, so that the encoded form
+// (with its escaped reserved characters, e.g. %2F) stays the one that is
+// written by URL.String().
+func TrimTrailingSlash(u *nurl.URL) {
+	if u.RawPath != "" {
+		if !strings.HasSuffix(u.RawPath, "/") {
+			// The path ends with an escaped character
+			return
+		}
+		u.RawPath = strings.TrimSuffix(u.RawPath, "/")
+	}
+	u.Path = strings.TrimSuffix(u.Path, "/")
+}
+
 func UnescapedString(u *nurl.URL) string {
 	var buf strings.Builder
 	if u.Scheme != "" {
